@@ -10,6 +10,7 @@
    BLANK_NODE_LABELs); C05a, C05b, C05d have been repaired in the code and their
    trigger hypotheses are gone. *)
 From RV Require Import Grammar.Model Grammar.Proofs Grammar.Reader Grammar.ReaderProofs Grammar.ReaderDoc.
+From RV Require Import Grammar.Resolve Grammar.ResolveProofs Grammar.TurtleStr Grammar.TurtleStrProofs.
 Local Open Scope N_scope.
 
 (* "Conversely rdflib's N-Triples output is accepted by a strict implementation of
@@ -207,6 +208,118 @@ Proof.
   split; [vm_compute; reflexivity|vm_compute; reflexivity].
 Qed.
 Print Assumptions C05_nt_reads_legal_refuted.
+
+(* ---------------------------------------------------------------- relative IRI references (Turtle / TriG / N3 readers)
+   [m_join] is notation3.join with _uri_split, _remove_dot_segments, splitFragP as in the source (Grammar/Resolve.v
+   Part M, tied by suite "join"); [rfc_resolve] is RFC 3986 section 5.2 written independently (Part S: components
+   by cutting at the first '#', '?', ':'; 5.2.2 transform; 5.2.3 merge; 5.2.4 remove_dot_segments on two string
+   buffers; 5.3 recomposition); [rdf_resolve] leaves a reference that has a scheme as it is (RDF resolves relative
+   references only).  [base_ok]: the base has a scheme and at most one '#'.  [hierarchical]: a '/' follows the
+   scheme's colon - join refuses other bases with ValueError (documented behaviour) unless the reference is a
+   same-document reference. *)
+Theorem C05_join_is_rfc3986 : forall base ref,
+  base_ok base = true -> (hierarchical base || same_document ref) = true ->
+  exists t, rdf_resolve base ref = Some t /\ m_join base ref = JOk t.
+Proof. exact join_is_rfc3986. Qed.
+Print Assumptions C05_join_is_rfc3986.
+
+(* the regular expression of RFC 3986 appendix B (as the scanner rdflib's pattern amounts to) finds the components
+   that cutting at the first '#', the first '?' before it, the first ':' (no '/' before it) and "//" finds *)
+Theorem C05_uri_split_is_appendix_b : forall u, m_split u = s_split u.
+Proof. exact split_eq. Qed.
+Print Assumptions C05_uri_split_is_appendix_b.
+
+(* _remove_dot_segments ends within len(path) rounds and its list of segments, joined, is the output buffer of
+   RFC 3986 5.2.4 *)
+Theorem C05_remove_dot_segments_is_5_2_4 : forall p, exists r, m_rds p = Some r /\ s_rds p = Some r.
+Proof. exact rds_eq. Qed.
+Print Assumptions C05_remove_dot_segments_is_5_2_4.
+
+Theorem C05_join_spec_ok_model : forall c, j_kf c = 0 -> j_spec_ok c (j_model c) = true.
+Proof. exact j_spec_ok_model. Qed.
+Print Assumptions C05_join_spec_ok_model.
+
+(* without "at most one '#' in the base" the statement is false: splitFragP cuts at the LAST '#' (finding C05q) *)
+Theorem C05_join_two_hashes_refuted : exists base ref t,
+  is_none (c_scheme (s_split base)) = false /\ hierarchical base = true /\
+  rdf_resolve base ref = Some t /\ m_join base ref <> JOk t /\ j_kf {| j_base := base; j_ref := ref |} = 17.
+Proof. exact join_two_hashes_refuted. Qed.
+Print Assumptions C05_join_two_hashes_refuted.
+
+(* RFC 3986 section 5.4: all 23 normal and 18 abnormal examples, base http://a/b/c/d;p?q, for the specification and
+   for the model of rdflib's code *)
+Definition rfc54_base : str := [104;116;116;112;58;47;47;97;47;98;47;99;47;100;59;112;63;113].
+Definition rfc54_examples : list (str * str) :=
+    [([103; 58; 104], [103; 58; 104]);
+     ([103], [104; 116; 116; 112; 58; 47; 47; 97; 47; 98; 47; 99; 47; 103]);
+     ([46; 47; 103], [104; 116; 116; 112; 58; 47; 47; 97; 47; 98; 47; 99; 47; 103]);
+     ([103; 47], [104; 116; 116; 112; 58; 47; 47; 97; 47; 98; 47; 99; 47; 103; 47]);
+     ([47; 103], [104; 116; 116; 112; 58; 47; 47; 97; 47; 103]);
+     ([47; 47; 103], [104; 116; 116; 112; 58; 47; 47; 103]);
+     ([63; 121], [104; 116; 116; 112; 58; 47; 47; 97; 47; 98; 47; 99; 47; 100; 59; 112; 63; 121]);
+     ([103; 63; 121], [104; 116; 116; 112; 58; 47; 47; 97; 47; 98; 47; 99; 47; 103; 63; 121]);
+     ([35; 115], [104; 116; 116; 112; 58; 47; 47; 97; 47; 98; 47; 99; 47; 100; 59; 112; 63; 113; 35; 115]);
+     ([103; 35; 115], [104; 116; 116; 112; 58; 47; 47; 97; 47; 98; 47; 99; 47; 103; 35; 115]);
+     ([103; 63; 121; 35; 115], [104; 116; 116; 112; 58; 47; 47; 97; 47; 98; 47; 99; 47; 103; 63; 121; 35; 115]);
+     ([59; 120], [104; 116; 116; 112; 58; 47; 47; 97; 47; 98; 47; 99; 47; 59; 120]);
+     ([103; 59; 120], [104; 116; 116; 112; 58; 47; 47; 97; 47; 98; 47; 99; 47; 103; 59; 120]);
+     ([103; 59; 120; 63; 121; 35; 115], [104; 116; 116; 112; 58; 47; 47; 97; 47; 98; 47; 99; 47; 103; 59; 120; 63; 121; 35; 115]);
+     ([], [104; 116; 116; 112; 58; 47; 47; 97; 47; 98; 47; 99; 47; 100; 59; 112; 63; 113]);
+     ([46], [104; 116; 116; 112; 58; 47; 47; 97; 47; 98; 47; 99; 47]);
+     ([46; 47], [104; 116; 116; 112; 58; 47; 47; 97; 47; 98; 47; 99; 47]);
+     ([46; 46], [104; 116; 116; 112; 58; 47; 47; 97; 47; 98; 47]);
+     ([46; 46; 47], [104; 116; 116; 112; 58; 47; 47; 97; 47; 98; 47]);
+     ([46; 46; 47; 103], [104; 116; 116; 112; 58; 47; 47; 97; 47; 98; 47; 103]);
+     ([46; 46; 47; 46; 46], [104; 116; 116; 112; 58; 47; 47; 97; 47]);
+     ([46; 46; 47; 46; 46; 47], [104; 116; 116; 112; 58; 47; 47; 97; 47]);
+     ([46; 46; 47; 46; 46; 47; 103], [104; 116; 116; 112; 58; 47; 47; 97; 47; 103]);
+     ([46; 46; 47; 46; 46; 47; 46; 46; 47; 103], [104; 116; 116; 112; 58; 47; 47; 97; 47; 103]);
+     ([46; 46; 47; 46; 46; 47; 46; 46; 47; 46; 46; 47; 103], [104; 116; 116; 112; 58; 47; 47; 97; 47; 103]);
+     ([47; 46; 47; 103], [104; 116; 116; 112; 58; 47; 47; 97; 47; 103]);
+     ([47; 46; 46; 47; 103], [104; 116; 116; 112; 58; 47; 47; 97; 47; 103]);
+     ([103; 46], [104; 116; 116; 112; 58; 47; 47; 97; 47; 98; 47; 99; 47; 103; 46]);
+     ([46; 103], [104; 116; 116; 112; 58; 47; 47; 97; 47; 98; 47; 99; 47; 46; 103]);
+     ([103; 46; 46], [104; 116; 116; 112; 58; 47; 47; 97; 47; 98; 47; 99; 47; 103; 46; 46]);
+     ([46; 46; 103], [104; 116; 116; 112; 58; 47; 47; 97; 47; 98; 47; 99; 47; 46; 46; 103]);
+     ([46; 47; 46; 46; 47; 103], [104; 116; 116; 112; 58; 47; 47; 97; 47; 98; 47; 103]);
+     ([46; 47; 103; 47; 46], [104; 116; 116; 112; 58; 47; 47; 97; 47; 98; 47; 99; 47; 103; 47]);
+     ([103; 47; 46; 47; 104], [104; 116; 116; 112; 58; 47; 47; 97; 47; 98; 47; 99; 47; 103; 47; 104]);
+     ([103; 47; 46; 46; 47; 104], [104; 116; 116; 112; 58; 47; 47; 97; 47; 98; 47; 99; 47; 104]);
+     ([103; 59; 120; 61; 49; 47; 46; 47; 121], [104; 116; 116; 112; 58; 47; 47; 97; 47; 98; 47; 99; 47; 103; 59; 120; 61; 49; 47; 121]);
+     ([103; 59; 120; 61; 49; 47; 46; 46; 47; 121], [104; 116; 116; 112; 58; 47; 47; 97; 47; 98; 47; 99; 47; 121]);
+     ([103; 63; 121; 47; 46; 47; 120], [104; 116; 116; 112; 58; 47; 47; 97; 47; 98; 47; 99; 47; 103; 63; 121; 47; 46; 47; 120]);
+     ([103; 63; 121; 47; 46; 46; 47; 120], [104; 116; 116; 112; 58; 47; 47; 97; 47; 98; 47; 99; 47; 103; 63; 121; 47; 46; 46; 47; 120]);
+     ([103; 35; 115; 47; 46; 47; 120], [104; 116; 116; 112; 58; 47; 47; 97; 47; 98; 47; 99; 47; 103; 35; 115; 47; 46; 47; 120]);
+     ([103; 35; 115; 47; 46; 46; 47; 120], [104; 116; 116; 112; 58; 47; 47; 97; 47; 98; 47; 99; 47; 103; 35; 115; 47; 46; 46; 47; 120])].
+Example C05_rfc3986_5_4_examples :
+  length rfc54_examples = 41%nat /\
+  forallb (fun e => match rdf_resolve rfc54_base (fst e) with Some t => str_eqb t (snd e) | None => false end) rfc54_examples = true /\
+  forallb (fun e => match m_join rfc54_base (fst e) with JOk t => str_eqb t (snd e) | _ => false end) rfc54_examples = true.
+Proof. vm_compute. repeat split; reflexivity. Qed.
+
+(* ---------------------------------------------------------------- Turtle term level: string literals
+   [strconst] is SinkParser.strconst of notation3.py with uEscape / UEscape (Grammar/TurtleStr.v Part M, tied by suite
+   "tstring", called directly and through Graph.parse); [t_string] is the Turtle 1.1 grammar: productions [22] [23]
+   (short, double and single quote) and [24] [25] (long), ECHAR, UCHAR, with their denotation.  Every legal spelling
+   of a string - whichever of the four quotings, any character raw, as ECHAR, as \u or \U escape, raw line ends and
+   one or two raw quotes inside the long forms - is read to the string it denotes.  For the long forms what follows
+   the closing delimiter must not begin with the quote character again (the grammar's longest-match reading of four
+   or more quotes; strconst takes up to two of them into the string). *)
+Theorem C05_turtle_string_forms : forall q long l v rest, quote_char q ->
+  t_string q long l = Some (v, rest) -> (long = true -> starts_with q rest = false) ->
+  strconst q long l = Some (v, rest).
+Proof. exact strconst_reads_legal. Qed.
+Print Assumptions C05_turtle_string_forms.
+
+Theorem C05_turtle_string_spec_ok_model : forall c, quote_char (s_q c) -> s_spec_ok c (s_model c) = true.
+Proof. exact s_spec_ok_model. Qed.
+Print Assumptions C05_turtle_string_spec_ok_model.
+
+(* non-vacuity: a, a raw quote, b, LF, two raw quotes, x, the ECHAR for TAB, a u-escape and a U-escape in a long double-quoted string *)
+Example C05_turtle_string_nonvacuous :
+  let l := [97;34;98;10;34;34;120;92;116;92;117;48;48;101;57;92;85;48;48;48;49;70;54;48;48;34;34;34;32;46] in
+  t_string 34 true l = Some ([97;34;98;10;34;34;120;9;233;128512], [32;46]) /\ strconst 34 true l = t_string 34 true l.
+Proof. vm_compute. split; reflexivity. Qed.
 
 (* non-vacuity: a two-row N-Quads document with every kind of term, escapes in the
    literal, a blank-node-named graph and the default graph is in scope and read back *)
